@@ -19,6 +19,16 @@
 (*           naturals) identifies the occurrence; the harness gives each name *)
 (*           a concrete string / double per seed.                             *)
 (*   ref     [t |-> "ref", id |-> i]      a reference to container i of heap  *)
+(*   view    [t |-> "view", id |-> i, off |-> o, len |-> n]                   *)
+(*           an array value that shares its storage with array i of the heap  *)
+(*           but has a length / start of its own: it shows the elements       *)
+(*           off+1 .. off+len of container i.  Such values exist in the       *)
+(*           pinned implementation (an array value is a slice header that is  *)
+(*           copied on assignment; pop / popfirst through one copy change    *)
+(*           only that copy: C09's open finding alias-length): `b = a;        *)
+(*           b.pop()` leaves a and b as two arrays over one storage.  What    *)
+(*           print / json() / -o owe such a value is ITS elements; the        *)
+(*           storage is the identity used for the cycle test only.            *)
 (*   inline  [t |-> "arr", s |-> Seq(Value)]                                  *)
 (*           [t |-> "obj", s |-> Seq(Value), ks |-> Seq(name)]                *)
 (*           a container without identity (a JSON document as read is a tree  *)
@@ -36,6 +46,7 @@ EXTENDS JqUtil
 
 Atom(c, n) == [t |-> "atom", c |-> c, n |-> n]
 Ref(i)     == [t |-> "ref", id |-> i]
+View(i, o, n) == [t |-> "view", id |-> i, off |-> o, len |-> n]
 Arr(s)     == [t |-> "arr", s |-> s]
 Obj(s, ks) == [t |-> "obj", s |-> s, ks |-> ks]
 Null       == [t |-> "null"]
@@ -43,6 +54,9 @@ Error      == [t |-> "error"]
 EmptyHeap  == <<>>
 
 IsContainer(v) == v.t \in {"arr", "obj"}
+IsRefLike(v) == v.t \in {"ref", "view"}
+\* the container a reference denotes; for a view: its window of the shared storage
+Target(h, v) == IF v.t = "view" THEN [h[v.id] EXCEPT !.s = SubSeq(@, v.off + 1, v.off + v.len)] ELSE h[v.id]
 
 ----------------------------------------------------------------------------
 (* Output of print: a sequence of tokens (all records, field t = kind).      *)
@@ -84,8 +98,8 @@ RECURSIVE PrettyR(_, _, _, _), PrettyC(_, _, _)
 PrettyR(h, v, path, top) ==
   CASE v.t = "atom" -> <<AtomTok(v, top)>>
     [] v.t = "null" -> <<P("null")>>
-    [] v.t = "ref"  -> IF OnPath(v, path) THEN <<Circ>>
-                       ELSE PrettyC(h, h[v.id], path \cup {v.id})
+    [] IsRefLike(v) -> IF OnPath(v, path) THEN <<Circ>>
+                       ELSE PrettyC(h, Target(h, v), path \cup {v.id})
     [] OTHER        -> PrettyC(h, v, path)
 PrettyC(h, c, path) ==
   LET kids == [j \in 1..Len(c.s) |-> PrettyR(h, c.s[j], path, FALSE)] IN
@@ -107,8 +121,8 @@ RECURSIVE ToJsonR(_, _, _), ToJsonC(_, _, _)
 ToJsonR(h, v, path) ==
   CASE v.t = "atom" -> IF v.c = "x" THEN Error ELSE v
     [] v.t = "null" -> v
-    [] v.t = "ref"  -> IF OnPath(v, path) THEN Error
-                       ELSE ToJsonC(h, h[v.id], path \cup {v.id})
+    [] IsRefLike(v) -> IF OnPath(v, path) THEN Error
+                       ELSE ToJsonC(h, Target(h, v), path \cup {v.id})
     [] OTHER        -> ToJsonC(h, v, path)
 ToJsonC(h, c, path) ==
   LET kids == [j \in 1..Len(c.s) |-> ToJsonR(h, c.s[j], path)] IN
@@ -178,7 +192,7 @@ ParseJson(toks) ==
 RECURSIVE RefsIn(_)
 \* ids referenced from value v without passing through the heap
 RefsIn(v) ==
-  CASE v.t = "ref" -> {v.id}
+  CASE IsRefLike(v) -> {v.id}
     [] IsContainer(v) -> UNION {RefsIn(v.s[j]) : j \in 1..Len(v.s)}
     [] OTHER -> {}
 
@@ -204,7 +218,7 @@ BadLeafFrom(h, v) == HasClass(v, "x") \/ \E i \in ReachFrom(h, v) : HasClass(h[i
 \* visible without passing through the heap by the container it denotes
 RECURSIVE Subst1(_, _)
 Subst1(h, v) ==
-  CASE v.t = "ref" -> h[v.id]
+  CASE IsRefLike(v) -> Target(h, v)
     [] IsContainer(v) -> [v EXCEPT !.s = [j \in 1..Len(v.s) |-> Subst1(h, v.s[j])]]
     [] OTHER -> v
 RECURSIVE SubstN(_, _, _)
@@ -216,7 +230,7 @@ Unfold(h, v) == SubstN(h, v, Len(h) + 1)
 \* access paths: sequences of slot indices followed from a value, with no
 \* cycle logic at all.  Follow returns the values met, <<>> if the path leaves
 \* the structure.
-Deref(h, v) == IF v.t = "ref" THEN h[v.id] ELSE v
+Deref(h, v) == IF IsRefLike(v) THEN Target(h, v) ELSE v
 RECURSIVE Follow(_, _, _)
 Follow(h, v, p) ==
   IF p = <<>> THEN <<v>>
@@ -256,6 +270,7 @@ SplitToks(toks, sep) ==
 (* Compact encoding of values and tokens for the vectors (harness input).   *)
 (*   name <<1, 2>> -> "1.2";  atom -> class letter + name ("s1.2");          *)
 (*   ref -> "#2";  null -> "null";  error -> "error";                         *)
+(*   view of container 2, offset 1, length 2 -> "~2.1.2";                     *)
 (*   array -> [a |-> items];  object -> [o |-> items, k |-> key names];       *)
 (*   punctuation token -> its text;  other tokens -> "@kind:name".            *)
 RECURSIVE NameStr(_)
@@ -264,6 +279,7 @@ RECURSIVE EncVal(_)
 EncVal(v) ==
   CASE v.t = "atom"  -> v.c \o NameStr(v.n)
     [] v.t = "ref"   -> "#" \o ToString(v.id)
+    [] v.t = "view"  -> "~" \o ToString(v.id) \o "." \o ToString(v.off) \o "." \o ToString(v.len)
     [] v.t = "null"  -> "null"
     [] v.t = "error" -> "error"
     [] v.t = "arr"   -> [a |-> [j \in 1..Len(v.s) |-> EncVal(v.s[j])]]
